@@ -874,6 +874,10 @@ class PurityWorld:
         what = f"{op['fn']}()"
         a = self.resolve(op["args"])
         pos = a.pop("__pos__", [])
+        # estimator / scaler objects handed to the function: fitting them is their documented
+        # use, but their own hyper-parameters are the caller's and must come back unchanged -
+        # also when the call fails
+        est_args = {k: (v, {kk: freeze(vv) for kk, vv in v.get_params(deep=True).items()}) for k, v in a.items() if hasattr(v, "get_params")}
 
         def call():
             return fn(*pos, **a)
@@ -888,6 +892,20 @@ class PurityWorld:
             call, op.get("env"), what, op["fn"], op["args"], target_for_dry=lambda: dry, sweep=lambda: (call, None)
         )
         self.check_heap(what, op["fn"], op["args"], exc)
+        for k, (v, before) in est_args.items():
+            try:
+                now = {kk: freeze(vv) for kk, vv in v.get_params(deep=True).items()}
+            except Exception:  # noqa: BLE001
+                continue
+            changed = sorted(kk for kk in set(before) | set(now) if before.get(kk) != now.get(kk))
+            if changed:
+                self.violate(
+                    "argument_estimator_parameter_changed",
+                    op["fn"],
+                    f"{what}: hyper-parameter(s) {changed} of the caller's `{k}` object ({type(v).__name__}) differ after the call"
+                    + (f" (the call raised {type(exc).__name__})" if exc is not None else ""),
+                    after_exception=bool(exc is not None),
+                )
         if exc is not None:
             self.log.add("FN", op["fn"], "raise", type(exc).__name__)
             self.count("ops_injected_failure" if injected else "fn_raised")
